@@ -504,6 +504,52 @@ def r11_8(ctx, rep):
            "share one cache entry" % (distinct, src))
 
 
+@SPEC.rule(
+    "R11.9",
+    "a side of an equation is only re-shaped when the shapes disagree: in Generator.exitEquation and exitAssignmentStatement "
+    "every statement that transposes one side (ca.transpose(x) / x.T assigned back to a side) is dominated by the test that the "
+    "two sides' shapes differ (`<left>.shape != <right>.shape`) — for square operands the 'transposed shapes match' test alone "
+    "is always true and A = 2*B would be translated as A - (2*B)'",
+)
+def r11_9(ctx, rep):
+    from ..cfg import CFG, assume_truth
+    R = "R11.9"
+    n = 0
+    for hname in ("exitEquation", "exitAssignmentStatement"):
+        fn = ctx.find(GEN, "Generator." + hname)
+        if not isinstance(fn, ast.FunctionDef):
+            continue
+        site = GEN + ":Generator." + hname
+        cfg = CFG(fn, R)
+        for x in cfg.stmts():
+            if not isinstance(x.ast, ast.Assign) or not isinstance(x.ast.targets[0], ast.Name):
+                continue
+            v = x.ast.value
+            tr = (isinstance(v, ast.Call) and (call_name(v) or "").split(".")[-1] == "transpose" and v.args and is_name(v.args[0], x.ast.targets[0].id)) or \
+                 (isinstance(v, ast.Attribute) and v.attr == "T" and is_name(v.value, x.ast.targets[0].id))
+            if not tr:
+                continue
+            n += 1
+            side = x.ast.targets[0].id
+
+            def differs(g):
+                if g.kind != "assume":
+                    return False
+                for c in ast.walk(g.ast):
+                    if isinstance(c, ast.Compare) and len(c.ops) == 1 and isinstance(c.ops[0], (ast.NotEq, ast.Eq)) and isinstance(c.left, ast.Attribute) \
+                            and c.left.attr == "shape" and isinstance(c.comparators[0], ast.Attribute) and c.comparators[0].attr == "shape" \
+                            and side in (norm(c.left.value), norm(c.comparators[0].value)):
+                        if assume_truth(g, norm(ast.Compare(left=c.left, ops=[ast.Eq()], comparators=c.comparators))) is False:
+                            return True
+                return False
+
+            rep.ob(R, site, "transpose of `%s` only when the shapes differ" % side, bool(cfg.dominated_by(x.id, differs)),
+                   "`%s` is reached without having established that the two sides' shapes differ: for square matrices the transposed shape "
+                   "always matches, and the residual becomes lhs - rhs'" % norm(x.ast))
+    if n < 1:
+        raise MechanismMissing(R, "no auto-transpose found in exitEquation / exitAssignmentStatement")
+
+
 # -- seeded variants ---------------------------------------------------------
 from ._mut import replace_in_func  # noqa: E402
 
@@ -625,3 +671,17 @@ def _m_fcache(mod):
         return done
 
     return mod if replace_in_func(mod, "Generator.get_function", edit) else None
+
+
+@SPEC.mutant("auto-transpose also for equal shapes", GEN, "R11.9", "transpose of")
+def _m_transpose(mod):
+    def edit(fn):
+        for n in ast.walk(fn):
+            if isinstance(n, ast.If) and isinstance(n.test, ast.BoolOp) and any(isinstance(v, ast.Compare) and isinstance(v.ops[0], ast.NotEq) and ".shape" in norm(v) for v in n.test.values):
+                n.test.values = [v for v in n.test.values if not (isinstance(v, ast.Compare) and isinstance(v.ops[0], ast.NotEq))] or [ast.Constant(value=True)]
+                if len(n.test.values) == 1:
+                    n.test = n.test.values[0]
+                return True
+        return False
+
+    return mod if replace_in_func(mod, "Generator.exitEquation", edit) else None
